@@ -103,7 +103,7 @@ theorem sameHdr_drain (f : Nat) (s : State) (q : List Hash) (e : Bool) : SameHdr
       exact (ih s1 (q' ++ acc) e1).trans h1
 
 theorem sameHdr_addOrphan (s : State) (b : BlockAbs) : SameHdr s (addOrphan s b) := by
-  unfold addOrphan SameHdr
+  unfold addOrphan addOrphanB SameHdr
   simp only []
   split
   · split <;> rfl
